@@ -21,95 +21,95 @@ package pubsub
 //@   property C19
 //@   requires msg: msg != nil
 //@   noframe
-//@   ensures one-event: old(t.tracer) != nil ==> calls(EventTracer.Trace) - old(calls(EventTracer.Trace)) == 1
-//@   ensures no-tracer: old(t.tracer) == nil ==> calls(EventTracer.Trace) - old(calls(EventTracer.Trace)) == 0
-//@   ensures kind: old(t.tracer) != nil ==> lastarg(EventTracer.Trace, 1) != nil && deref(lastarg(EventTracer.Trace, 1).Type) == pb.TraceEvent_PUBLISH_MESSAGE && lastarg(EventTracer.Trace, 1).PublishMessage != nil
-//@   ensures origin: old(t.tracer) != nil ==> bytestr(lastarg(EventTracer.Trace, 1).PeerID) == old(t.pid)
-//@   ensures payload1: old(t.tracer) != nil ==> bytestr(lastarg(EventTracer.Trace, 1).PublishMessage.MessageID) == lastret((*msgIDGenerator).ID)
-//@   ensures payload2: old(t.tracer) != nil ==> lastarg(EventTracer.Trace, 1).PublishMessage.Topic == msg.Message.Topic
-//@   ensures payload3: old(t.tracer) != nil ==> lastarg((*msgIDGenerator).ID, 1) == msg
+//@   ensures one-event: t != nil ==> (old(t.tracer) != nil ==> calls(EventTracer.Trace) - old(calls(EventTracer.Trace)) == 1)
+//@   ensures no-tracer: t != nil ==> (old(t.tracer) == nil ==> calls(EventTracer.Trace) - old(calls(EventTracer.Trace)) == 0)
+//@   ensures kind: t != nil ==> (old(t.tracer) != nil ==> lastarg(EventTracer.Trace, 1) != nil && deref(lastarg(EventTracer.Trace, 1).Type) == pb.TraceEvent_PUBLISH_MESSAGE && lastarg(EventTracer.Trace, 1).PublishMessage != nil)
+//@   ensures origin: t != nil ==> (old(t.tracer) != nil ==> bytestr(lastarg(EventTracer.Trace, 1).PeerID) == old(t.pid))
+//@   ensures payload1: t != nil ==> (old(t.tracer) != nil ==> bytestr(lastarg(EventTracer.Trace, 1).PublishMessage.MessageID) == lastret((*msgIDGenerator).ID))
+//@   ensures payload2: t != nil ==> (old(t.tracer) != nil ==> lastarg(EventTracer.Trace, 1).PublishMessage.Topic == msg.Message.Topic)
+//@   ensures payload3: t != nil ==> (old(t.tracer) != nil ==> lastarg((*msgIDGenerator).ID, 1) == msg)
 
 //@ func (*pubsubTracer).ValidateMessage
 //@   property C19
 //@   noframe
 //@   loop 1 invariant forwarding: calls(RawTracer.ValidateMessage) - old(calls(RawTracer.ValidateMessage)) == rangeindex + 1 && rangeindex + 1 <= len(old(t.raw))
-//@   ensures raw-remote-only: calls(RawTracer.ValidateMessage) - old(calls(RawTracer.ValidateMessage)) == ite(old(msg.ReceivedFrom) != old(t.pid), len(old(t.raw)), 0)
+//@   ensures raw-remote-only: t != nil ==> (calls(RawTracer.ValidateMessage) - old(calls(RawTracer.ValidateMessage)) == ite(old(msg.ReceivedFrom) != old(t.pid), len(old(t.raw)), 0))
 
 //@ func (*pubsubTracer).RejectMessage
 //@   property C19
 //@   noframe
 //@   loop 1 invariant forwarding: calls(RawTracer.RejectMessage) - old(calls(RawTracer.RejectMessage)) == rangeindex + 1 && rangeindex + 1 <= len(old(t.raw)) && calls(EventTracer.Trace) == old(calls(EventTracer.Trace))
-//@   ensures raw-remote-only: calls(RawTracer.RejectMessage) - old(calls(RawTracer.RejectMessage)) == ite(old(msg.ReceivedFrom) != old(t.pid), len(old(t.raw)), 0)
-//@   ensures one-event: old(t.tracer) != nil ==> calls(EventTracer.Trace) - old(calls(EventTracer.Trace)) == 1
-//@   ensures no-tracer: old(t.tracer) == nil ==> calls(EventTracer.Trace) - old(calls(EventTracer.Trace)) == 0
-//@   ensures kind: old(t.tracer) != nil ==> lastarg(EventTracer.Trace, 1) != nil && deref(lastarg(EventTracer.Trace, 1).Type) == pb.TraceEvent_REJECT_MESSAGE && lastarg(EventTracer.Trace, 1).RejectMessage != nil
-//@   ensures origin: old(t.tracer) != nil ==> bytestr(lastarg(EventTracer.Trace, 1).PeerID) == old(t.pid)
-//@   ensures payload1: old(t.tracer) != nil ==> bytestr(lastarg(EventTracer.Trace, 1).RejectMessage.MessageID) == lastret((*msgIDGenerator).ID)
-//@   ensures payload2: old(t.tracer) != nil ==> bytestr(lastarg(EventTracer.Trace, 1).RejectMessage.ReceivedFrom) == msg.ReceivedFrom
-//@   ensures payload3: old(t.tracer) != nil ==> deref(lastarg(EventTracer.Trace, 1).RejectMessage.Reason) == reason
-//@   ensures payload4: old(t.tracer) != nil ==> lastarg((*msgIDGenerator).ID, 1) == msg
+//@   ensures raw-remote-only: t != nil ==> (calls(RawTracer.RejectMessage) - old(calls(RawTracer.RejectMessage)) == ite(old(msg.ReceivedFrom) != old(t.pid), len(old(t.raw)), 0))
+//@   ensures one-event: t != nil ==> (old(t.tracer) != nil ==> calls(EventTracer.Trace) - old(calls(EventTracer.Trace)) == 1)
+//@   ensures no-tracer: t != nil ==> (old(t.tracer) == nil ==> calls(EventTracer.Trace) - old(calls(EventTracer.Trace)) == 0)
+//@   ensures kind: t != nil ==> (old(t.tracer) != nil ==> lastarg(EventTracer.Trace, 1) != nil && deref(lastarg(EventTracer.Trace, 1).Type) == pb.TraceEvent_REJECT_MESSAGE && lastarg(EventTracer.Trace, 1).RejectMessage != nil)
+//@   ensures origin: t != nil ==> (old(t.tracer) != nil ==> bytestr(lastarg(EventTracer.Trace, 1).PeerID) == old(t.pid))
+//@   ensures payload1: t != nil ==> (old(t.tracer) != nil ==> bytestr(lastarg(EventTracer.Trace, 1).RejectMessage.MessageID) == lastret((*msgIDGenerator).ID))
+//@   ensures payload2: t != nil ==> (old(t.tracer) != nil ==> bytestr(lastarg(EventTracer.Trace, 1).RejectMessage.ReceivedFrom) == msg.ReceivedFrom)
+//@   ensures payload3: t != nil ==> (old(t.tracer) != nil ==> deref(lastarg(EventTracer.Trace, 1).RejectMessage.Reason) == reason)
+//@   ensures payload4: t != nil ==> (old(t.tracer) != nil ==> lastarg((*msgIDGenerator).ID, 1) == msg)
 
 //@ func (*pubsubTracer).DuplicateMessage
 //@   property C19
 //@   noframe
 //@   loop 1 invariant forwarding: calls(RawTracer.DuplicateMessage) - old(calls(RawTracer.DuplicateMessage)) == rangeindex + 1 && rangeindex + 1 <= len(old(t.raw)) && calls(EventTracer.Trace) == old(calls(EventTracer.Trace))
-//@   ensures raw-remote-only: calls(RawTracer.DuplicateMessage) - old(calls(RawTracer.DuplicateMessage)) == ite(old(msg.ReceivedFrom) != old(t.pid), len(old(t.raw)), 0)
-//@   ensures one-event: old(t.tracer) != nil ==> calls(EventTracer.Trace) - old(calls(EventTracer.Trace)) == 1
-//@   ensures no-tracer: old(t.tracer) == nil ==> calls(EventTracer.Trace) - old(calls(EventTracer.Trace)) == 0
-//@   ensures kind: old(t.tracer) != nil ==> lastarg(EventTracer.Trace, 1) != nil && deref(lastarg(EventTracer.Trace, 1).Type) == pb.TraceEvent_DUPLICATE_MESSAGE && lastarg(EventTracer.Trace, 1).DuplicateMessage != nil
-//@   ensures origin: old(t.tracer) != nil ==> bytestr(lastarg(EventTracer.Trace, 1).PeerID) == old(t.pid)
-//@   ensures payload1: old(t.tracer) != nil ==> bytestr(lastarg(EventTracer.Trace, 1).DuplicateMessage.MessageID) == lastret((*msgIDGenerator).ID)
-//@   ensures payload2: old(t.tracer) != nil ==> bytestr(lastarg(EventTracer.Trace, 1).DuplicateMessage.ReceivedFrom) == msg.ReceivedFrom
-//@   ensures payload3: old(t.tracer) != nil ==> lastarg((*msgIDGenerator).ID, 1) == msg
+//@   ensures raw-remote-only: t != nil ==> (calls(RawTracer.DuplicateMessage) - old(calls(RawTracer.DuplicateMessage)) == ite(old(msg.ReceivedFrom) != old(t.pid), len(old(t.raw)), 0))
+//@   ensures one-event: t != nil ==> (old(t.tracer) != nil ==> calls(EventTracer.Trace) - old(calls(EventTracer.Trace)) == 1)
+//@   ensures no-tracer: t != nil ==> (old(t.tracer) == nil ==> calls(EventTracer.Trace) - old(calls(EventTracer.Trace)) == 0)
+//@   ensures kind: t != nil ==> (old(t.tracer) != nil ==> lastarg(EventTracer.Trace, 1) != nil && deref(lastarg(EventTracer.Trace, 1).Type) == pb.TraceEvent_DUPLICATE_MESSAGE && lastarg(EventTracer.Trace, 1).DuplicateMessage != nil)
+//@   ensures origin: t != nil ==> (old(t.tracer) != nil ==> bytestr(lastarg(EventTracer.Trace, 1).PeerID) == old(t.pid))
+//@   ensures payload1: t != nil ==> (old(t.tracer) != nil ==> bytestr(lastarg(EventTracer.Trace, 1).DuplicateMessage.MessageID) == lastret((*msgIDGenerator).ID))
+//@   ensures payload2: t != nil ==> (old(t.tracer) != nil ==> bytestr(lastarg(EventTracer.Trace, 1).DuplicateMessage.ReceivedFrom) == msg.ReceivedFrom)
+//@   ensures payload3: t != nil ==> (old(t.tracer) != nil ==> lastarg((*msgIDGenerator).ID, 1) == msg)
 
 //@ func (*pubsubTracer).DeliverMessage
 //@   property C19
 //@   noframe
 //@   loop 1 invariant forwarding: calls(RawTracer.DeliverMessage) - old(calls(RawTracer.DeliverMessage)) == rangeindex + 1 && rangeindex + 1 <= len(old(t.raw)) && calls(EventTracer.Trace) == old(calls(EventTracer.Trace))
-//@   ensures raw-remote-only: calls(RawTracer.DeliverMessage) - old(calls(RawTracer.DeliverMessage)) == ite(old(msg.ReceivedFrom) != old(t.pid), len(old(t.raw)), 0)
-//@   ensures one-event: old(t.tracer) != nil ==> calls(EventTracer.Trace) - old(calls(EventTracer.Trace)) == 1
-//@   ensures no-tracer: old(t.tracer) == nil ==> calls(EventTracer.Trace) - old(calls(EventTracer.Trace)) == 0
-//@   ensures kind: old(t.tracer) != nil ==> lastarg(EventTracer.Trace, 1) != nil && deref(lastarg(EventTracer.Trace, 1).Type) == pb.TraceEvent_DELIVER_MESSAGE && lastarg(EventTracer.Trace, 1).DeliverMessage != nil
-//@   ensures origin: old(t.tracer) != nil ==> bytestr(lastarg(EventTracer.Trace, 1).PeerID) == old(t.pid)
-//@   ensures payload1: old(t.tracer) != nil ==> bytestr(lastarg(EventTracer.Trace, 1).DeliverMessage.MessageID) == lastret((*msgIDGenerator).ID)
-//@   ensures payload2: old(t.tracer) != nil ==> bytestr(lastarg(EventTracer.Trace, 1).DeliverMessage.ReceivedFrom) == msg.ReceivedFrom
-//@   ensures payload3: old(t.tracer) != nil ==> lastarg((*msgIDGenerator).ID, 1) == msg
+//@   ensures raw-remote-only: t != nil ==> (calls(RawTracer.DeliverMessage) - old(calls(RawTracer.DeliverMessage)) == ite(old(msg.ReceivedFrom) != old(t.pid), len(old(t.raw)), 0))
+//@   ensures one-event: t != nil ==> (old(t.tracer) != nil ==> calls(EventTracer.Trace) - old(calls(EventTracer.Trace)) == 1)
+//@   ensures no-tracer: t != nil ==> (old(t.tracer) == nil ==> calls(EventTracer.Trace) - old(calls(EventTracer.Trace)) == 0)
+//@   ensures kind: t != nil ==> (old(t.tracer) != nil ==> lastarg(EventTracer.Trace, 1) != nil && deref(lastarg(EventTracer.Trace, 1).Type) == pb.TraceEvent_DELIVER_MESSAGE && lastarg(EventTracer.Trace, 1).DeliverMessage != nil)
+//@   ensures origin: t != nil ==> (old(t.tracer) != nil ==> bytestr(lastarg(EventTracer.Trace, 1).PeerID) == old(t.pid))
+//@   ensures payload1: t != nil ==> (old(t.tracer) != nil ==> bytestr(lastarg(EventTracer.Trace, 1).DeliverMessage.MessageID) == lastret((*msgIDGenerator).ID))
+//@   ensures payload2: t != nil ==> (old(t.tracer) != nil ==> bytestr(lastarg(EventTracer.Trace, 1).DeliverMessage.ReceivedFrom) == msg.ReceivedFrom)
+//@   ensures payload3: t != nil ==> (old(t.tracer) != nil ==> lastarg((*msgIDGenerator).ID, 1) == msg)
 
 //@ func (*pubsubTracer).OnNewOutboundStream
 //@   property C19
 //@   noframe
 //@   loop 1 invariant forwarding: calls(RawTracer.OnNewOutboundStream) - old(calls(RawTracer.OnNewOutboundStream)) == rangeindex + 1 && rangeindex + 1 <= len(old(t.raw)) && calls(EventTracer.Trace) == old(calls(EventTracer.Trace))
-//@   ensures raw-all: calls(RawTracer.OnNewOutboundStream) - old(calls(RawTracer.OnNewOutboundStream)) == len(old(t.raw))
-//@   ensures one-event: old(t.tracer) != nil ==> calls(EventTracer.Trace) - old(calls(EventTracer.Trace)) == 1
-//@   ensures no-tracer: old(t.tracer) == nil ==> calls(EventTracer.Trace) - old(calls(EventTracer.Trace)) == 0
-//@   ensures kind: old(t.tracer) != nil ==> lastarg(EventTracer.Trace, 1) != nil && deref(lastarg(EventTracer.Trace, 1).Type) == pb.TraceEvent_ON_NEW_OUTBOUND_STREAM && lastarg(EventTracer.Trace, 1).OnNewOutboundStream != nil
-//@   ensures origin: old(t.tracer) != nil ==> bytestr(lastarg(EventTracer.Trace, 1).PeerID) == old(t.pid)
-//@   ensures payload1: old(t.tracer) != nil ==> bytestr(lastarg(EventTracer.Trace, 1).OnNewOutboundStream.PeerID) == p
-//@   ensures payload2: old(t.tracer) != nil ==> deref(lastarg(EventTracer.Trace, 1).OnNewOutboundStream.Proto) == proto
+//@   ensures raw-all: t != nil ==> (calls(RawTracer.OnNewOutboundStream) - old(calls(RawTracer.OnNewOutboundStream)) == len(old(t.raw)))
+//@   ensures one-event: t != nil ==> (old(t.tracer) != nil ==> calls(EventTracer.Trace) - old(calls(EventTracer.Trace)) == 1)
+//@   ensures no-tracer: t != nil ==> (old(t.tracer) == nil ==> calls(EventTracer.Trace) - old(calls(EventTracer.Trace)) == 0)
+//@   ensures kind: t != nil ==> (old(t.tracer) != nil ==> lastarg(EventTracer.Trace, 1) != nil && deref(lastarg(EventTracer.Trace, 1).Type) == pb.TraceEvent_ON_NEW_OUTBOUND_STREAM && lastarg(EventTracer.Trace, 1).OnNewOutboundStream != nil)
+//@   ensures origin: t != nil ==> (old(t.tracer) != nil ==> bytestr(lastarg(EventTracer.Trace, 1).PeerID) == old(t.pid))
+//@   ensures payload1: t != nil ==> (old(t.tracer) != nil ==> bytestr(lastarg(EventTracer.Trace, 1).OnNewOutboundStream.PeerID) == p)
+//@   ensures payload2: t != nil ==> (old(t.tracer) != nil ==> deref(lastarg(EventTracer.Trace, 1).OnNewOutboundStream.Proto) == proto)
 
 //@ func (*pubsubTracer).OnClosedOutboundStream
 //@   property C19
 //@   noframe
 //@   loop 1 invariant forwarding: calls(RawTracer.OnClosedOutboundStream) - old(calls(RawTracer.OnClosedOutboundStream)) == rangeindex + 1 && rangeindex + 1 <= len(old(t.raw)) && calls(EventTracer.Trace) == old(calls(EventTracer.Trace))
-//@   ensures raw-all: calls(RawTracer.OnClosedOutboundStream) - old(calls(RawTracer.OnClosedOutboundStream)) == len(old(t.raw))
-//@   ensures one-event: old(t.tracer) != nil ==> calls(EventTracer.Trace) - old(calls(EventTracer.Trace)) == 1
-//@   ensures no-tracer: old(t.tracer) == nil ==> calls(EventTracer.Trace) - old(calls(EventTracer.Trace)) == 0
-//@   ensures kind: old(t.tracer) != nil ==> lastarg(EventTracer.Trace, 1) != nil && deref(lastarg(EventTracer.Trace, 1).Type) == pb.TraceEvent_ON_CLOSED_OUTBOUND_STREAM && lastarg(EventTracer.Trace, 1).OnClosedOutboundStream != nil
-//@   ensures origin: old(t.tracer) != nil ==> bytestr(lastarg(EventTracer.Trace, 1).PeerID) == old(t.pid)
-//@   ensures payload1: old(t.tracer) != nil ==> bytestr(lastarg(EventTracer.Trace, 1).OnClosedOutboundStream.PeerID) == p
+//@   ensures raw-all: t != nil ==> (calls(RawTracer.OnClosedOutboundStream) - old(calls(RawTracer.OnClosedOutboundStream)) == len(old(t.raw)))
+//@   ensures one-event: t != nil ==> (old(t.tracer) != nil ==> calls(EventTracer.Trace) - old(calls(EventTracer.Trace)) == 1)
+//@   ensures no-tracer: t != nil ==> (old(t.tracer) == nil ==> calls(EventTracer.Trace) - old(calls(EventTracer.Trace)) == 0)
+//@   ensures kind: t != nil ==> (old(t.tracer) != nil ==> lastarg(EventTracer.Trace, 1) != nil && deref(lastarg(EventTracer.Trace, 1).Type) == pb.TraceEvent_ON_CLOSED_OUTBOUND_STREAM && lastarg(EventTracer.Trace, 1).OnClosedOutboundStream != nil)
+//@   ensures origin: t != nil ==> (old(t.tracer) != nil ==> bytestr(lastarg(EventTracer.Trace, 1).PeerID) == old(t.pid))
+//@   ensures payload1: t != nil ==> (old(t.tracer) != nil ==> bytestr(lastarg(EventTracer.Trace, 1).OnClosedOutboundStream.PeerID) == p)
 
 //@ func (*pubsubTracer).RecvRPC
 //@   property C19
 //@   noframe
 //@   loop 1 invariant forwarding: calls(RawTracer.RecvRPC) - old(calls(RawTracer.RecvRPC)) == rangeindex + 1 && rangeindex + 1 <= len(old(t.raw)) && calls(EventTracer.Trace) == old(calls(EventTracer.Trace))
-//@   ensures raw-all: calls(RawTracer.RecvRPC) - old(calls(RawTracer.RecvRPC)) == len(old(t.raw))
-//@   ensures one-event: old(t.tracer) != nil ==> calls(EventTracer.Trace) - old(calls(EventTracer.Trace)) == 1
-//@   ensures no-tracer: old(t.tracer) == nil ==> calls(EventTracer.Trace) - old(calls(EventTracer.Trace)) == 0
-//@   ensures kind: old(t.tracer) != nil ==> lastarg(EventTracer.Trace, 1) != nil && deref(lastarg(EventTracer.Trace, 1).Type) == pb.TraceEvent_RECV_RPC && lastarg(EventTracer.Trace, 1).RecvRPC != nil
-//@   ensures origin: old(t.tracer) != nil ==> bytestr(lastarg(EventTracer.Trace, 1).PeerID) == old(t.pid)
-//@   ensures payload1: old(t.tracer) != nil ==> bytestr(lastarg(EventTracer.Trace, 1).RecvRPC.ReceivedFrom) == rpc.from
-//@   ensures payload2: old(t.tracer) != nil ==> lastarg(EventTracer.Trace, 1).RecvRPC.Meta == lastret((*pubsubTracer).traceRPCMeta)
-//@   ensures payload3: old(t.tracer) != nil ==> lastarg((*pubsubTracer).traceRPCMeta, 1) == rpc
+//@   ensures raw-all: t != nil ==> (calls(RawTracer.RecvRPC) - old(calls(RawTracer.RecvRPC)) == len(old(t.raw)))
+//@   ensures one-event: t != nil ==> (old(t.tracer) != nil ==> calls(EventTracer.Trace) - old(calls(EventTracer.Trace)) == 1)
+//@   ensures no-tracer: t != nil ==> (old(t.tracer) == nil ==> calls(EventTracer.Trace) - old(calls(EventTracer.Trace)) == 0)
+//@   ensures kind: t != nil ==> (old(t.tracer) != nil ==> lastarg(EventTracer.Trace, 1) != nil && deref(lastarg(EventTracer.Trace, 1).Type) == pb.TraceEvent_RECV_RPC && lastarg(EventTracer.Trace, 1).RecvRPC != nil)
+//@   ensures origin: t != nil ==> (old(t.tracer) != nil ==> bytestr(lastarg(EventTracer.Trace, 1).PeerID) == old(t.pid))
+//@   ensures payload1: t != nil ==> (old(t.tracer) != nil ==> bytestr(lastarg(EventTracer.Trace, 1).RecvRPC.ReceivedFrom) == rpc.from)
+//@   ensures payload2: t != nil ==> (old(t.tracer) != nil ==> lastarg(EventTracer.Trace, 1).RecvRPC.Meta == lastret((*pubsubTracer).traceRPCMeta))
+//@   ensures payload3: t != nil ==> (old(t.tracer) != nil ==> lastarg((*pubsubTracer).traceRPCMeta, 1) == rpc)
 
 //@ func (*pubsubTracer).SendRPC
 //@   property C19
@@ -117,14 +117,14 @@ package pubsub
 //@   modifies nSentTo
 //@   ghost-effect counted: nSentTo[p] == old(nSentTo[p]) + 1 && (forall x string :: x != p ==> nSentTo[x] == old(nSentTo[x]))
 //@   loop 1 invariant forwarding: calls(RawTracer.SendRPC) - old(calls(RawTracer.SendRPC)) == rangeindex + 1 && rangeindex + 1 <= len(old(t.raw)) && calls(EventTracer.Trace) == old(calls(EventTracer.Trace))
-//@   ensures raw-all: calls(RawTracer.SendRPC) - old(calls(RawTracer.SendRPC)) == len(old(t.raw))
-//@   ensures one-event: old(t.tracer) != nil ==> calls(EventTracer.Trace) - old(calls(EventTracer.Trace)) == 1
-//@   ensures no-tracer: old(t.tracer) == nil ==> calls(EventTracer.Trace) - old(calls(EventTracer.Trace)) == 0
-//@   ensures kind: old(t.tracer) != nil ==> lastarg(EventTracer.Trace, 1) != nil && deref(lastarg(EventTracer.Trace, 1).Type) == pb.TraceEvent_SEND_RPC && lastarg(EventTracer.Trace, 1).SendRPC != nil
-//@   ensures origin: old(t.tracer) != nil ==> bytestr(lastarg(EventTracer.Trace, 1).PeerID) == old(t.pid)
-//@   ensures payload1: old(t.tracer) != nil ==> bytestr(lastarg(EventTracer.Trace, 1).SendRPC.SendTo) == p
-//@   ensures payload2: old(t.tracer) != nil ==> lastarg(EventTracer.Trace, 1).SendRPC.Meta == lastret((*pubsubTracer).traceRPCMeta)
-//@   ensures payload3: old(t.tracer) != nil ==> lastarg((*pubsubTracer).traceRPCMeta, 1) == rpc
+//@   ensures raw-all: t != nil ==> (calls(RawTracer.SendRPC) - old(calls(RawTracer.SendRPC)) == len(old(t.raw)))
+//@   ensures one-event: t != nil ==> (old(t.tracer) != nil ==> calls(EventTracer.Trace) - old(calls(EventTracer.Trace)) == 1)
+//@   ensures no-tracer: t != nil ==> (old(t.tracer) == nil ==> calls(EventTracer.Trace) - old(calls(EventTracer.Trace)) == 0)
+//@   ensures kind: t != nil ==> (old(t.tracer) != nil ==> lastarg(EventTracer.Trace, 1) != nil && deref(lastarg(EventTracer.Trace, 1).Type) == pb.TraceEvent_SEND_RPC && lastarg(EventTracer.Trace, 1).SendRPC != nil)
+//@   ensures origin: t != nil ==> (old(t.tracer) != nil ==> bytestr(lastarg(EventTracer.Trace, 1).PeerID) == old(t.pid))
+//@   ensures payload1: t != nil ==> (old(t.tracer) != nil ==> bytestr(lastarg(EventTracer.Trace, 1).SendRPC.SendTo) == p)
+//@   ensures payload2: t != nil ==> (old(t.tracer) != nil ==> lastarg(EventTracer.Trace, 1).SendRPC.Meta == lastret((*pubsubTracer).traceRPCMeta))
+//@   ensures payload3: t != nil ==> (old(t.tracer) != nil ==> lastarg((*pubsubTracer).traceRPCMeta, 1) == rpc)
 
 //@ func (*pubsubTracer).DropRPC
 //@   property C19
@@ -132,69 +132,69 @@ package pubsub
 //@   modifies nDropTo
 //@   ghost-effect counted: nDropTo[p] == old(nDropTo[p]) + 1 && (forall x string :: x != p ==> nDropTo[x] == old(nDropTo[x]))
 //@   loop 1 invariant forwarding: calls(RawTracer.DropRPC) - old(calls(RawTracer.DropRPC)) == rangeindex + 1 && rangeindex + 1 <= len(old(t.raw)) && calls(EventTracer.Trace) == old(calls(EventTracer.Trace))
-//@   ensures raw-all: calls(RawTracer.DropRPC) - old(calls(RawTracer.DropRPC)) == len(old(t.raw))
-//@   ensures one-event: old(t.tracer) != nil ==> calls(EventTracer.Trace) - old(calls(EventTracer.Trace)) == 1
-//@   ensures no-tracer: old(t.tracer) == nil ==> calls(EventTracer.Trace) - old(calls(EventTracer.Trace)) == 0
-//@   ensures kind: old(t.tracer) != nil ==> lastarg(EventTracer.Trace, 1) != nil && deref(lastarg(EventTracer.Trace, 1).Type) == pb.TraceEvent_DROP_RPC && lastarg(EventTracer.Trace, 1).DropRPC != nil
-//@   ensures origin: old(t.tracer) != nil ==> bytestr(lastarg(EventTracer.Trace, 1).PeerID) == old(t.pid)
-//@   ensures payload1: old(t.tracer) != nil ==> bytestr(lastarg(EventTracer.Trace, 1).DropRPC.SendTo) == p
-//@   ensures payload2: old(t.tracer) != nil ==> lastarg(EventTracer.Trace, 1).DropRPC.Meta == lastret((*pubsubTracer).traceRPCMeta)
-//@   ensures payload3: old(t.tracer) != nil ==> lastarg((*pubsubTracer).traceRPCMeta, 1) == rpc
+//@   ensures raw-all: t != nil ==> (calls(RawTracer.DropRPC) - old(calls(RawTracer.DropRPC)) == len(old(t.raw)))
+//@   ensures one-event: t != nil ==> (old(t.tracer) != nil ==> calls(EventTracer.Trace) - old(calls(EventTracer.Trace)) == 1)
+//@   ensures no-tracer: t != nil ==> (old(t.tracer) == nil ==> calls(EventTracer.Trace) - old(calls(EventTracer.Trace)) == 0)
+//@   ensures kind: t != nil ==> (old(t.tracer) != nil ==> lastarg(EventTracer.Trace, 1) != nil && deref(lastarg(EventTracer.Trace, 1).Type) == pb.TraceEvent_DROP_RPC && lastarg(EventTracer.Trace, 1).DropRPC != nil)
+//@   ensures origin: t != nil ==> (old(t.tracer) != nil ==> bytestr(lastarg(EventTracer.Trace, 1).PeerID) == old(t.pid))
+//@   ensures payload1: t != nil ==> (old(t.tracer) != nil ==> bytestr(lastarg(EventTracer.Trace, 1).DropRPC.SendTo) == p)
+//@   ensures payload2: t != nil ==> (old(t.tracer) != nil ==> lastarg(EventTracer.Trace, 1).DropRPC.Meta == lastret((*pubsubTracer).traceRPCMeta))
+//@   ensures payload3: t != nil ==> (old(t.tracer) != nil ==> lastarg((*pubsubTracer).traceRPCMeta, 1) == rpc)
 
 //@ func (*pubsubTracer).UndeliverableMessage
 //@   property C19
 //@   noframe
 //@   loop 1 invariant forwarding: calls(RawTracer.UndeliverableMessage) - old(calls(RawTracer.UndeliverableMessage)) == rangeindex + 1 && rangeindex + 1 <= len(old(t.raw))
-//@   ensures raw-all: calls(RawTracer.UndeliverableMessage) - old(calls(RawTracer.UndeliverableMessage)) == len(old(t.raw))
+//@   ensures raw-all: t != nil ==> (calls(RawTracer.UndeliverableMessage) - old(calls(RawTracer.UndeliverableMessage)) == len(old(t.raw)))
 
 //@ func (*pubsubTracer).Join
 //@   property C19
 //@   noframe
 //@   loop 1 invariant forwarding: calls(RawTracer.Join) - old(calls(RawTracer.Join)) == rangeindex + 1 && rangeindex + 1 <= len(old(t.raw)) && calls(EventTracer.Trace) == old(calls(EventTracer.Trace))
-//@   ensures raw-all: calls(RawTracer.Join) - old(calls(RawTracer.Join)) == len(old(t.raw))
-//@   ensures one-event: old(t.tracer) != nil ==> calls(EventTracer.Trace) - old(calls(EventTracer.Trace)) == 1
-//@   ensures no-tracer: old(t.tracer) == nil ==> calls(EventTracer.Trace) - old(calls(EventTracer.Trace)) == 0
-//@   ensures kind: old(t.tracer) != nil ==> lastarg(EventTracer.Trace, 1) != nil && deref(lastarg(EventTracer.Trace, 1).Type) == pb.TraceEvent_JOIN && lastarg(EventTracer.Trace, 1).Join != nil
-//@   ensures origin: old(t.tracer) != nil ==> bytestr(lastarg(EventTracer.Trace, 1).PeerID) == old(t.pid)
-//@   ensures payload1: old(t.tracer) != nil ==> deref(lastarg(EventTracer.Trace, 1).Join.Topic) == topic
+//@   ensures raw-all: t != nil ==> (calls(RawTracer.Join) - old(calls(RawTracer.Join)) == len(old(t.raw)))
+//@   ensures one-event: t != nil ==> (old(t.tracer) != nil ==> calls(EventTracer.Trace) - old(calls(EventTracer.Trace)) == 1)
+//@   ensures no-tracer: t != nil ==> (old(t.tracer) == nil ==> calls(EventTracer.Trace) - old(calls(EventTracer.Trace)) == 0)
+//@   ensures kind: t != nil ==> (old(t.tracer) != nil ==> lastarg(EventTracer.Trace, 1) != nil && deref(lastarg(EventTracer.Trace, 1).Type) == pb.TraceEvent_JOIN && lastarg(EventTracer.Trace, 1).Join != nil)
+//@   ensures origin: t != nil ==> (old(t.tracer) != nil ==> bytestr(lastarg(EventTracer.Trace, 1).PeerID) == old(t.pid))
+//@   ensures payload1: t != nil ==> (old(t.tracer) != nil ==> deref(lastarg(EventTracer.Trace, 1).Join.Topic) == topic)
 
 //@ func (*pubsubTracer).Leave
 //@   property C19
 //@   noframe
 //@   loop 1 invariant forwarding: calls(RawTracer.Leave) - old(calls(RawTracer.Leave)) == rangeindex + 1 && rangeindex + 1 <= len(old(t.raw)) && calls(EventTracer.Trace) == old(calls(EventTracer.Trace))
-//@   ensures raw-all: calls(RawTracer.Leave) - old(calls(RawTracer.Leave)) == len(old(t.raw))
-//@   ensures one-event: old(t.tracer) != nil ==> calls(EventTracer.Trace) - old(calls(EventTracer.Trace)) == 1
-//@   ensures no-tracer: old(t.tracer) == nil ==> calls(EventTracer.Trace) - old(calls(EventTracer.Trace)) == 0
-//@   ensures kind: old(t.tracer) != nil ==> lastarg(EventTracer.Trace, 1) != nil && deref(lastarg(EventTracer.Trace, 1).Type) == pb.TraceEvent_LEAVE && lastarg(EventTracer.Trace, 1).Leave != nil
-//@   ensures origin: old(t.tracer) != nil ==> bytestr(lastarg(EventTracer.Trace, 1).PeerID) == old(t.pid)
-//@   ensures payload1: old(t.tracer) != nil ==> deref(lastarg(EventTracer.Trace, 1).Leave.Topic) == topic
+//@   ensures raw-all: t != nil ==> (calls(RawTracer.Leave) - old(calls(RawTracer.Leave)) == len(old(t.raw)))
+//@   ensures one-event: t != nil ==> (old(t.tracer) != nil ==> calls(EventTracer.Trace) - old(calls(EventTracer.Trace)) == 1)
+//@   ensures no-tracer: t != nil ==> (old(t.tracer) == nil ==> calls(EventTracer.Trace) - old(calls(EventTracer.Trace)) == 0)
+//@   ensures kind: t != nil ==> (old(t.tracer) != nil ==> lastarg(EventTracer.Trace, 1) != nil && deref(lastarg(EventTracer.Trace, 1).Type) == pb.TraceEvent_LEAVE && lastarg(EventTracer.Trace, 1).Leave != nil)
+//@   ensures origin: t != nil ==> (old(t.tracer) != nil ==> bytestr(lastarg(EventTracer.Trace, 1).PeerID) == old(t.pid))
+//@   ensures payload1: t != nil ==> (old(t.tracer) != nil ==> deref(lastarg(EventTracer.Trace, 1).Leave.Topic) == topic)
 
 //@ func (*pubsubTracer).Graft
 //@   property C19
 //@   noframe
 //@   loop 1 invariant forwarding: calls(RawTracer.Graft) - old(calls(RawTracer.Graft)) == rangeindex + 1 && rangeindex + 1 <= len(old(t.raw)) && calls(EventTracer.Trace) == old(calls(EventTracer.Trace))
-//@   ensures raw-all: calls(RawTracer.Graft) - old(calls(RawTracer.Graft)) == len(old(t.raw))
-//@   ensures one-event: old(t.tracer) != nil ==> calls(EventTracer.Trace) - old(calls(EventTracer.Trace)) == 1
-//@   ensures no-tracer: old(t.tracer) == nil ==> calls(EventTracer.Trace) - old(calls(EventTracer.Trace)) == 0
-//@   ensures kind: old(t.tracer) != nil ==> lastarg(EventTracer.Trace, 1) != nil && deref(lastarg(EventTracer.Trace, 1).Type) == pb.TraceEvent_GRAFT && lastarg(EventTracer.Trace, 1).Graft != nil
-//@   ensures origin: old(t.tracer) != nil ==> bytestr(lastarg(EventTracer.Trace, 1).PeerID) == old(t.pid)
-//@   ensures payload1: old(t.tracer) != nil ==> bytestr(lastarg(EventTracer.Trace, 1).Graft.PeerID) == p
-//@   ensures payload2: old(t.tracer) != nil ==> deref(lastarg(EventTracer.Trace, 1).Graft.Topic) == topic
+//@   ensures raw-all: t != nil ==> (calls(RawTracer.Graft) - old(calls(RawTracer.Graft)) == len(old(t.raw)))
+//@   ensures one-event: t != nil ==> (old(t.tracer) != nil ==> calls(EventTracer.Trace) - old(calls(EventTracer.Trace)) == 1)
+//@   ensures no-tracer: t != nil ==> (old(t.tracer) == nil ==> calls(EventTracer.Trace) - old(calls(EventTracer.Trace)) == 0)
+//@   ensures kind: t != nil ==> (old(t.tracer) != nil ==> lastarg(EventTracer.Trace, 1) != nil && deref(lastarg(EventTracer.Trace, 1).Type) == pb.TraceEvent_GRAFT && lastarg(EventTracer.Trace, 1).Graft != nil)
+//@   ensures origin: t != nil ==> (old(t.tracer) != nil ==> bytestr(lastarg(EventTracer.Trace, 1).PeerID) == old(t.pid))
+//@   ensures payload1: t != nil ==> (old(t.tracer) != nil ==> bytestr(lastarg(EventTracer.Trace, 1).Graft.PeerID) == p)
+//@   ensures payload2: t != nil ==> (old(t.tracer) != nil ==> deref(lastarg(EventTracer.Trace, 1).Graft.Topic) == topic)
 
 //@ func (*pubsubTracer).Prune
 //@   property C19
 //@   noframe
 //@   loop 1 invariant forwarding: calls(RawTracer.Prune) - old(calls(RawTracer.Prune)) == rangeindex + 1 && rangeindex + 1 <= len(old(t.raw)) && calls(EventTracer.Trace) == old(calls(EventTracer.Trace))
-//@   ensures raw-all: calls(RawTracer.Prune) - old(calls(RawTracer.Prune)) == len(old(t.raw))
-//@   ensures one-event: old(t.tracer) != nil ==> calls(EventTracer.Trace) - old(calls(EventTracer.Trace)) == 1
-//@   ensures no-tracer: old(t.tracer) == nil ==> calls(EventTracer.Trace) - old(calls(EventTracer.Trace)) == 0
-//@   ensures kind: old(t.tracer) != nil ==> lastarg(EventTracer.Trace, 1) != nil && deref(lastarg(EventTracer.Trace, 1).Type) == pb.TraceEvent_PRUNE && lastarg(EventTracer.Trace, 1).Prune != nil
-//@   ensures origin: old(t.tracer) != nil ==> bytestr(lastarg(EventTracer.Trace, 1).PeerID) == old(t.pid)
-//@   ensures payload1: old(t.tracer) != nil ==> bytestr(lastarg(EventTracer.Trace, 1).Prune.PeerID) == p
-//@   ensures payload2: old(t.tracer) != nil ==> deref(lastarg(EventTracer.Trace, 1).Prune.Topic) == topic
+//@   ensures raw-all: t != nil ==> (calls(RawTracer.Prune) - old(calls(RawTracer.Prune)) == len(old(t.raw)))
+//@   ensures one-event: t != nil ==> (old(t.tracer) != nil ==> calls(EventTracer.Trace) - old(calls(EventTracer.Trace)) == 1)
+//@   ensures no-tracer: t != nil ==> (old(t.tracer) == nil ==> calls(EventTracer.Trace) - old(calls(EventTracer.Trace)) == 0)
+//@   ensures kind: t != nil ==> (old(t.tracer) != nil ==> lastarg(EventTracer.Trace, 1) != nil && deref(lastarg(EventTracer.Trace, 1).Type) == pb.TraceEvent_PRUNE && lastarg(EventTracer.Trace, 1).Prune != nil)
+//@   ensures origin: t != nil ==> (old(t.tracer) != nil ==> bytestr(lastarg(EventTracer.Trace, 1).PeerID) == old(t.pid))
+//@   ensures payload1: t != nil ==> (old(t.tracer) != nil ==> bytestr(lastarg(EventTracer.Trace, 1).Prune.PeerID) == p)
+//@   ensures payload2: t != nil ==> (old(t.tracer) != nil ==> deref(lastarg(EventTracer.Trace, 1).Prune.Topic) == topic)
 
 //@ func (*pubsubTracer).ThrottlePeer
 //@   property C19
 //@   noframe
 //@   loop 1 invariant forwarding: calls(RawTracer.ThrottlePeer) - old(calls(RawTracer.ThrottlePeer)) == rangeindex + 1 && rangeindex + 1 <= len(old(t.raw))
-//@   ensures raw-all: calls(RawTracer.ThrottlePeer) - old(calls(RawTracer.ThrottlePeer)) == len(old(t.raw))
+//@   ensures raw-all: t != nil ==> (calls(RawTracer.ThrottlePeer) - old(calls(RawTracer.ThrottlePeer)) == len(old(t.raw)))
